@@ -8,8 +8,9 @@
      * the ADF resolution of  ADF_internals.c : ADFI_chase_link  (the while loop with its link_depth counter and
        ADF_MAXIMUM_LINK_DEPTH, the one-entry cache last_link_ID / last_link_LID with its exact invalidation points),
        ADF_interface.c : ADF_Get_Node_ID  (path walking that chases every component but the last; chase and walk
-       call each other: the recursion has NO counter in the C code, so the model gives it fuel and a distinguished
-       out-of-fuel result [EStack] that stands for the stack overflow), ADF_Link / ADF_Get_Link_Path (the
+       call each other: since 8281ca0 the wrapper of ADFI_chase_link counts the nested activations in a static
+       variable and answers LINKS_TOO_DEEP at ADF_MAXIMUM_LINK_DEPTH -- the model's fuel IS that budget; before, the
+       recursion had no counter and out of fuel = [EStack] = the stack overflow), ADF_Link / ADF_Get_Link_Path (the
        "file>path" payload and its split at the first separator), ADF_Is_Link,
      * the bookkeeping of implicitly opened files (ADF_file[].in_use / links, ADFI_link_add, ADFI_close_file),
      * the ADFH resolution of  ADFH.c : open_link / open_link_1 / open_node / parse_path / ADFH_Get_Node_ID  (each hop
